@@ -80,8 +80,10 @@ structure MapRange where
 /-- A string the generator writes only in source-map mode, or any string
 literal of `internal/gen*.go` spelling a line directive.
 
-* `literal`: the value of the string literal written (format string), or
-  `unknown: <statement>` when what is written is not a literal;
+* `literal`: the value of the string literal written (format string); for a
+  concatenation its constant value, or the leading constant operands when the
+  rest is not constant; `unknown: <statement>` when what is written does not
+  begin with a constant string;
 * `isComment`: `literal`, after leading white space, starts with `//` or `/*`
   (false for `unknown` entries);
 * `guarded`: the statement lies inside an `if x.sourceMapped { ... }` block,
@@ -99,8 +101,12 @@ structure SMWrite where
 The extractor FLATTENS every template tree (the template of a file and each
 `{{define}}` in it; the latter are named `file{name}`): text nodes verbatim, in
 document order; every printing action replaced by a placeholder identifier;
-every `{{template}}` include by another placeholder; BOTH branches of
-`{{if}}` / `{{with}}` / `{{range}}` present.  Each byte remembers the stack of
+every `{{template}}` include by another placeholder, except that an include of
+a `{{define}}` whose own text holds a func literal, a `defer`, a `go` or a
+`recover()` (directly or through such a define) is EXPANDED in place, and that
+define is then not reported on its own; BOTH branches of
+`{{if}}` / `{{with}}` / `{{range}}` present (as alternatives: the token that
+follows the first branch is the one after the second).  Each byte remembers the stack of
 template branches it lies under, its *guards*, written
 
 * `if P` / `unless P` for the two branches of `{{if P}}`,
